@@ -158,7 +158,10 @@ fn native_args(acc: &mut Acc, wd: &mut Workdir, rng: &mut Rng, rounds: usize, al
                 continue;
             }
         };
-        let exe = match wd.build_x86(&asm.text, asm.nargs, None) {
+        // every second shape with an explicit heap size (the driver file is cached per parameter count
+        // and heap size in one infrastructure directory shared by all programs of this worker)
+        let heap = if shape % 2 == 1 { Some(48) } else { None };
+        let exe = match wd.build_x86(&asm.text, asm.nargs, heap) {
             Ok(e) => e,
             Err(BuildErr::Assemble(m)) => {
                 acc.violation("C20:assemble", m.clone(), J::obj().with("src", J::s(src)));
